@@ -16,6 +16,13 @@ OPT_INNER = ["u8", "u32", "u64", "usize", "i16", "bool", "f64", "Pod1", "char", 
 # When set, only leaf types that rustc's improper_ctypes lint accepts are generated (`char` is
 # not C-representable by the compiler's own rules), as C03's precondition demands.
 FFI_STRICT = False
+# While the trait *definition* is rendered, shapes marked generic print the trait's type
+# parameter `T` instead of the concrete type it is instantiated with.
+RENDER_GENERIC = False
+
+
+def _g(obj, t):
+    return "T" if (RENDER_GENERIC and getattr(obj, "generic", False)) else t
 
 
 def _vals():
@@ -77,7 +84,7 @@ class AVal(Arg):
         self.t = t
 
     def ty(self, lt):
-        return self.t
+        return _g(self, self.t)
 
     def setup(self):
         return f"let {self.n}: {self.t} = Val::gen(&mut g);"
@@ -97,7 +104,7 @@ class ARef(Arg):
         self.t = t
 
     def ty(self, lt):
-        return f"&{lt}{self.t}"
+        return f"&{lt}{_g(self, self.t)}"
 
     def setup(self):
         return f"let {self.n}w: {self.t} = Val::gen(&mut g); let {self.n}r = {self.n}w.clone();"
@@ -161,7 +168,7 @@ class ASlice(Arg):
         self.t = t
 
     def ty(self, lt):
-        return f"&{lt}[{self.t}]"
+        return f"&{lt}[{_g(self, self.t)}]"
 
     def setup(self):
         return f"let {self.n}w: Vec<{self.t}> = Val::gen(&mut g); let {self.n}r = {self.n}w.clone();"
@@ -544,7 +551,7 @@ class RVal(Ret):
         self.t = t
 
     def ty(self, lt):
-        return f" -> {self.t}"
+        return f" -> {_g(self, self.t)}"
 
     def impl_expr(self):
         return f"gen::<{self.t}>(h)"
@@ -733,6 +740,29 @@ class RChild(Ret):
         return True
 
 
+class RSelf(Ret):
+    """`-> Self`: the opaque object returns a new opaque object of its own type"""
+    wrapped = True
+    self_return = True
+
+    def ty(self, lt):
+        return " -> Self"
+
+    def impl_expr(self):
+        return "Self::new(Shared::new(h), h | 1)"
+
+    def compare(self):
+        return ("let (pw, pr) = (rw.PROBE(), rr.PROBE());"
+                " if pw != pr { return Err(Fail::new(\"C01:self-return\", format!(\"method {}: the object returned as `Self` through the opaque object answers {:#x}, the directly returned one {:#x}\", mname, pw, pr))); }"
+                " live_children_check!();")
+
+    def nondefault(self):
+        return "true"
+
+    def transfers(self):
+        return True
+
+
 class RResChild(Ret):
     """Result<Self::Co, ()> with an integer code (as in the suite's ObjResultReturn)"""
     wrapped = True
@@ -869,9 +899,26 @@ class Method:
 class Trait:
     def __init__(self, name, methods, int_result):
         self.name, self.methods, self.int_result = name, methods, int_result
+        self.generic = None     # concrete type the trait-level parameter T is instantiated with
+        self.supers = ""        # e.g. ": Send + Sync"
+
+    def use(self):
+        """the trait as named in bounds and impls"""
+        return f"{self.name}<{self.generic}>" if self.generic else self.name
+
+    def vtbl(self):
+        return f"{self.name}Vtbl<'_, _, {self.generic}>" if self.generic else f"{self.name}Vtbl<'_, _>"
+
+    def exported(self):
+        """methods that get a vtable slot"""
+        return [m for m in self.methods if not getattr(m, "skip", False)]
+
+    def has_rettmp(self):
+        return any(getattr(m.ret, "borrowed", False) and getattr(m.ret, "wrapped", False) for m in self.methods)
 
     def has_own(self):
-        return any(m.recv == "own" for m in self.methods)
+        # `-> Self` needs a container that can be built from an owned value, like by-value receivers
+        return any(m.recv == "own" or getattr(m.ret, "self_return", False) for m in self.methods)
 
     def has_mut(self):
         return any(m.mutating() for m in self.methods)
@@ -893,12 +940,16 @@ class Trait:
         return k
 
     def describe(self):
-        return {"trait": self.name, "int_result": self.int_result, "methods": [m.describe() for m in self.methods], "containers": self.kinds()}
+        return {"trait": self.name + (f"<T = {self.generic}>" if self.generic else "") + self.supers, "int_result": self.int_result, "methods": [m.describe() for m in self.methods], "containers": self.kinds()}
 
 
 def gen_trait(rng, name, prefix, max_methods=5, allow_child=True, tindex=0):
     n = rng.randint(1, max_methods)
     int_result = rng.random() < 0.5
+    generic = rng.choice(["u16", "i64", "Pod2", "u8"]) if rng.random() < 0.25 else None
+    supers = rng.choice(["", "", "", ": Send", ": Send + Sync", ": Sync"])
+    want_self = allow_child and rng.random() < 0.15
+    used_t = False
     methods = []
     used_assoc = {}
     have_own = False
@@ -919,6 +970,21 @@ def gen_trait(rng, name, prefix, max_methods=5, allow_child=True, tindex=0):
         nargs = rng.choice([0, 1, 1, 2, 2, 3, 4])
         args = [gen_arg(rng, i) for i in range(nargs)]
         ret = gen_ret(rng, recv in ("mut", "pinmut"), recv == "own", allow_child)
+        if generic:
+            # use the type parameter in some positions
+            if rng.random() < 0.6:
+                k = rng.random()
+                a = AVal(len(args), generic) if k < 0.4 else (ARef(len(args), generic) if k < 0.7 else ASlice(len(args), generic))
+                a.generic = True
+                if len(args) < 4:
+                    args.append(a)
+                    used_t = True
+            if recv != "own" and rng.random() < 0.4 and isinstance(ret, (RUnit, RVal)):
+                ret = RVal(generic)
+                ret.generic = True
+                used_t = True
+        if want_self and recv in ("ref", "mut") and j == n - 1:
+            ret = RSelf()
         if recv in ("pinref", "pinmut") and ret.assoc:
             ret = RVal("u64")  # wrapped associated returns are generated for plain receivers only
         if isinstance(ret, RChild) and ret.mode != "owned" and any(a.reflike for a in args):
@@ -945,14 +1011,34 @@ def gen_trait(rng, name, prefix, max_methods=5, allow_child=True, tindex=0):
         if m.extern_c and not (all(plain_arg(a) for a in m.args) and plain_ret and recv in ("ref", "mut")):
             m.extern_c = False  # (a by-value `self` of a Rust-layout implementor is not C-safe either)
         # provided methods (default bodies), optionally further bounded, optionally overridden
-        if isinstance(ret, (RUnit, RVal, ROpt, RRes)) and recv != "own" and not any(isinstance(a, (AInto, ACallback, AIter)) for a in args) and rng.random() < 0.22:
+        if isinstance(ret, (RUnit, RVal, ROpt, RRes)) and not getattr(ret, "generic", False) and recv != "own" and not any(isinstance(a, (AInto, ACallback, AIter)) for a in args) and rng.random() < 0.22:
             m.default_body = True
             m.overridden = rng.random() < 0.75
             m.where_sized = rng.random() < 0.5
+            # a provided method that is not exported at all (no vtable slot): only meaningful
+            # when the implementor does not override it (both paths then run the trait's body)
+            if not m.overridden and rng.random() < 0.5:
+                m.skip = True
+                m.attrs.append("#[skip_func]")
         # int_result attribute logic
         if ret.int_result is True and not int_result:
             m.attrs.append("#[int_result]")
         if ret.int_result is False and int_result:
             m.attrs.append("#[no_int_result]")
         methods.append(m)
-    return Trait(name, methods, int_result)
+    t = Trait(name, methods, int_result)
+    if supers and any(getattr(m.ret, "borrowed", False) and getattr(m.ret, "wrapped", False) for m in methods):
+        # the wrapper keeps borrowed wrapped returns in a Cell inside the container, which is never
+        # Sync, and the object (which holds a `&Vtbl<Container>` marker) is then neither Send nor
+        # Sync: a trait with such a supertrait cannot be implemented by its opaque object
+        # (rejected at compile time; part of the known C09 picture, not a runtime matter)
+        supers = ""
+    used_t = any(getattr(x, "generic", False) for m in methods for x in list(m.args) + [m.ret])
+    t.generic, t.supers = (generic if used_t else None), supers
+    if any(getattr(m.ret, "self_return", False) for m in methods):
+        # a state probe so that returned objects can be compared
+        pm = Method(len(methods), f"{prefix}_probe", "ref", [], RVal("u64"))
+        pm.gid = tindex * 100 + len(methods)
+        methods.append(pm)
+        t.probe = pm.name
+    return t
